@@ -106,7 +106,7 @@ theorem copyInto_refines {d src : Doc} {F Fs : Forest} {l ls : Loc}
       PL.live (copyInto d l src (src.get ls)).g (copyInto d l src (src.get ls)).pl x) ∧
     Keep d (copyInto d l src (src.get ls)) F l ∧
     d.overflowed = false := by
-  obtain ⟨a, b, g, c, _, e, ov, _, f, lv, k⟩ := copyInto_doc_gen w hs gok hl (VOK_at ws hls) (src_fuel_ok ws hls) hnd
+  obtain ⟨a, b, g, c, _, e, ov, _, _, f, lv, k⟩ := copyInto_doc_gen w hs gok hl (VOK_at ws hls) (src_fuel_ok ws hls) hnd
   refine ⟨a, b, g, e hok, by rw [c, e hok], f, lv, k, ?_⟩
   cases h : d.overflowed with
   | false => rfl
@@ -118,7 +118,7 @@ theorem copyInto_fresh_of_null {d src : Doc} {F Fs : Forest} {l ls : Loc}
     (w : WFG d F) (hs : StrOK d (d.strRefs F)) (gok : PL.GeoOK d.g) (hl : isLoc F l) (hnull : d.get l = .null)
     (ws : WFG src Fs) (hls : isLoc Fs ls) (hnd : NoDupKeys (src.toVal (src.get ls))) :
     ∀ x ∈ ((copyInto d l src (src.get ls)).lay ((copyInto d l src (src.get ls)).get l)).ids, x ∉ F.ids := by
-  obtain ⟨_, _, _, _, _, _, _, _, f, _⟩ := copyInto_doc_gen w hs gok hl (VOK_at ws hls) (src_fuel_ok ws hls) hnd
+  obtain ⟨_, _, _, _, _, _, _, _, _, f, _⟩ := copyInto_doc_gen w hs gok hl (VOK_at ws hls) (src_fuel_ok ws hls) hnd
   intro x hx hxF
   have := f x hx hxF
   rw [layoutAt_nil_of_scalar w hl (by rw [hnull]; exact fun h => h)] at this
@@ -154,7 +154,7 @@ theorem copyInto_frame {d src : Doc} {F Fs : Forest} {l ls l' : Loc}
     (hdisj : ∀ x ∈ (layoutAt F l').ids, x ∉ (layoutAt F l).ids ∧ Loc.slot x ≠ l) :
     (copyInto d l src (src.get ls)).get l' = d.get l' ∧
     (copyInto d l src (src.get ls)).toVal ((copyInto d l src (src.get ls)).get l') = d.toVal (d.get l') := by
-  obtain ⟨_, _, _, _, _, _, _, _, _, _, k⟩ := copyInto_doc_gen w hs gok hl (VOK_at ws hls) (src_fuel_ok ws hls) hnd
+  obtain ⟨_, _, _, _, _, _, _, _, _, _, _, k⟩ := copyInto_doc_gen w hs gok hl (VOK_at ws hls) (src_fuel_ok ws hls) hnd
   exact k.toVal w hl' hne hout hdisj
 
 /-- SAME DOCUMENT: `d[l].set(d[ls])`. The model reads the source from the original `d` throughout (a snapshot taken before
